@@ -155,10 +155,12 @@ fn hist_witness() {
     # ------------------------------------------------------------------ SumVec / MultihotCountVec / Sum (length accessors)
     STRW = [(r'<F: NttFriendlyFieldElement, S>', '<F, S>', '*'), (r'<F: NttFriendlyFieldElement>', '<F>', '*'),
             (r'where\s+F: FieldElementWithInteger,', '', '*'), (r'\bF::Integer\b', 'u128', '*')]
-    for (ty, imp, implhdr, calls_ok) in (
-            ('SumVec', 'impl<F, S> Flp for SumVec<F, S>', 'impl<F, S> SumVec<F, S>', 'sv'),
-            ('MultihotCountVec', 'impl<F, S> Flp for MultihotCountVec<F, S>', 'impl<F, S> MultihotCountVec<F, S>', 'mh')):
-        u.struct_item(T, ['pub struct ' + ty], rewrites=STRW)
+    L1F = 'src/flp/types/l1boundsum.rs'
+    for (ty, imp, implhdr, calls_ok, TF) in (
+            ('SumVec', 'impl<F, S> Flp for SumVec<F, S>', 'impl<F, S> SumVec<F, S>', 'sv', T),
+            ('MultihotCountVec', 'impl<F, S> Flp for MultihotCountVec<F, S>', 'impl<F, S> MultihotCountVec<F, S>', 'mh', T),
+            ('L1BoundSum', 'impl<F, S> Flp for L1BoundSum<F, S>', 'impl<F, S> L1BoundSum<F, S>', 'l1', L1F)):
+        u.struct_item(TF, ['pub struct ' + ty], rewrites=STRW + [(r'pub\(super\) ', 'pub ', '*')])
         u.raw('''
 // established by %(ty)s::new (constructor not under contract here: generic over F::Integer); usable = lengths compute
 spec fn %(p)s_usable<F, S>(h: %(ty)s<F, S>) -> bool {
@@ -166,19 +168,19 @@ spec fn %(p)s_usable<F, S>(h: %(ty)s<F, S>) -> bool {
     &&& h.chunk_length as int * 2 + 2 * (spec_npo2(1 + h.gadget_calls as int) - 1) + 1 <= usize::MAX as int
 }
 ''' % dict(ty=ty, p=calls_ok), ty + '-spec')
-        u.item(T, [imp, 'fn proof_len'], ret='r', impl_header=implhdr, name=None, sig='''
+        u.item(TF, [imp, 'fn proof_len'], ret='r', impl_header=implhdr, name=None, sig='''
 requires
     %(p)s_usable(*self),
 ensures
     r as int == 2 * self.chunk_length as int + (2 * (spec_npo2(1 + self.gadget_calls as int) - 1) + 1),
 ''' % dict(p=calls_ok), before=[('(self.chunk_length * 2)', 'lemma_npo2_bounds(1 + self.gadget_calls as int);')])
-        u.item(T, [imp, 'fn verifier_len'], ret='r', impl_header=implhdr, sig='''
+        u.item(TF, [imp, 'fn verifier_len'], ret='r', impl_header=implhdr, sig='''
 requires
     %(p)s_usable(*self),
 ensures
     r as int == 1 + (2 * self.chunk_length as int + 1),
 ''' % dict(p=calls_ok), before=[('2 + self.chunk_length * 2', 'lemma_npo2_bounds(1 + self.gadget_calls as int);')])
-        u.item(T, [imp, 'fn joint_rand_len'], ret='r', impl_header=implhdr, sig='ensures\n r == self.gadget_calls,')
+        u.item(TF, [imp, 'fn joint_rand_len'], ret='r', impl_header=implhdr, sig='ensures\n r == self.gadget_calls,')
         u.raw('''
 fn %(p)s_proof_len_matches_prove<F, S>(h: &%(ty)s<F, S>)
     requires %(p)s_usable(*h)
